@@ -651,5 +651,420 @@ theorem agree_of_closed {ids : List Str} (hc : Closed B ids) {env : Env} (henv :
 
 end
 
+/-! ### calls -/
+
+section
+variable (B : Builtins)
+
+/-- The value of a macro call in the spec (`coalesce` works on the argument values). -/
+def macroVal (env : Env) (name : Str) (this : Val) (args : List Ast) : Val :=
+  if name = "coalesce".toList then coalesceVal (evalSpecList B args env).reverse
+  else evalSpecMacro B name this args env
+
+/-- The value of a call in the spec, given what the callee denotes. -/
+def callVal (kindf : Env → CallKind) (name : Str) (args : List Ast) (env : Env) : Val :=
+  callOf B (kindf env) name (evalSpecList B args env).reverse (fun this => evalSpecMacro B name this args env)
+
+/-- The argument blocks in source order (first argument first). -/
+def blocksOf (args : List Ast) : List (List Instr) := (args.map (fun a => (compileX B a).cp.toCode)).reverse
+
+/-- The macro theorem for one call site: `callMacro` on the compiled argument blocks gives `macroVal`,
+    leaves the log alone, and the value is data. -/
+def MacroOK (name : Str) (args : List Ast) : Prop :=
+  ∀ b env this, StdEnv B env → Data this → env.isMacro name = true → depthArgs args ≤ b → b < maxDepth →
+    (∀ log, callMacro (runAt B b) (runFresh B) env name this (blocksOf B args) log =
+      (macroVal B env name this args, log)) ∧ Data (macroVal B env name this args)
+
+/-- The callee code `cc` leaves an entry that `CALL` treats as `kindf env` asks. -/
+def CalleeGood (d : Nat) (cc : List Instr) (name : Str) (kindf : Env → CallKind) : Prop :=
+  ∀ b env, StdEnv B env → d ≤ b → b < maxDepth →
+    KindOK B (kindf env) ∧ (∀ this, kindf env = .macro_ this → env.isMacro name = true) ∧
+    ∃ callee, RunsE B (runAt B b) (runFresh B) env cc callee ∧
+      ∀ argv res r, (∀ a ∈ argv, Plain a) → ArgsEval (runAt B b) env argv res →
+        CallResult B (runAt B b) (runFresh B) env (kindf env) name argv res r →
+        CallStep B (runAt B b) (runFresh B) env callee argv r
+
+variable {B}
+
+theorem compileArgs_eq (args : List Ast) :
+    compileArgs B args = args.map (fun a => .push (.code (compileX B a).cp.toCode)) := by
+  induction args with
+  | nil => simp [compileArgs]
+  | cons a as ih => simp [compileArgs, ih]
+
+theorem depth_arg_lt {args : List Ast} {a : Ast} (h : a ∈ args) : depth a + 1 ≤ depthArgs args := by
+  induction args with
+  | nil => cases h
+  | cons x xs ih =>
+    rw [depthArgs]
+    rcases List.mem_cons.mp h with rfl | h
+    · omega
+    · have := ih h; omega
+
+theorem call_runs (hB : BuiltinsOK B) {d : Nat} {cc : List Instr} {name : Str} {kindf : Env → CallKind}
+    (hcal : CalleeGood B d cc name kindf) (args : List Ast) (hargs : ∀ a ∈ args, GoodRun B a)
+    (hmac : MacroOK B name args) :
+    ∀ b env, StdEnv B env → max d (depthArgs args) ≤ b → b < maxDepth →
+      Runs B (runAt B b) (runFresh B) env (compileArgs B args ++ cc ++ [.call args.length])
+        (callVal B kindf name args env) ∧ Data (callVal B kindf name args env) := by
+  intro b env henv hd hb
+  obtain ⟨hk, hkm, callee, hrunsE, hstep⟩ := hcal b env henv (by omega) hb
+  let bvs : List (List Instr × Val) := (args.map (fun a => ((compileX B a).cp.toCode, evalSpec B a env))).reverse
+  have hblk : ∀ p ∈ bvs, ∀ log, runAt B b env p.1 true log = outOf p.2 log := by
+    intro p hp log
+    simp only [bvs, List.mem_reverse] at hp
+    obtain ⟨a, ha, rfl⟩ := List.mem_map.mp hp
+    exact block_runs (hargs a ha) henv (by have := depth_arg_lt ha; omega) hb log
+  have hev := argsEval_blocks (rec := runAt B b) (env := env) bvs hblk
+  have hp : ∀ a ∈ bvs.map (fun p => Val.code p.1), Plain a := by
+    intro a ha; obtain ⟨q, _, rfl⟩ := List.mem_map.mp ha; exact plain_code _
+  have hvals : bvs.map (·.2) = (evalSpecList B args env).reverse := by
+    simp [bvs, evalSpecList_eq, List.map_reverse, List.map_map, Function.comp_def]
+  have hdvals : ∀ v ∈ (evalSpecList B args env).reverse, Data v := by
+    intro v hv
+    rw [List.mem_reverse, evalSpecList_eq] at hv
+    obtain ⟨a, ha, rfl⟩ := List.mem_map.mp hv
+    exact (hargs a ha b env henv (by have := depth_arg_lt ha; omega) hb).2
+  have hres : CallResult B (runAt B b) (runFresh B) env (kindf env) name (bvs.map (fun p => Val.code p.1))
+      (argsRes (bvs.map (·.2))) (callVal B kindf name args env) ∧ Data (callVal B kindf name args env) := by
+    unfold CallResult callVal
+    cases hkk : kindf env with
+    | macro_ this =>
+      have hm := hmac b env this henv (by rw [hkk] at hk; exact hk) (hkm this hkk) (by omega) hb
+      refine ⟨⟨blocksOf B args, ?_, ?_⟩, ?_⟩
+      · simp [bvs, blocksOf, List.map_reverse, List.map_map, Function.comp_def]
+      · intro log; rw [hm.1 log]; rfl
+      · exact hm.2
+    | func f this =>
+      rw [hkk] at hk
+      simp only [callOf, callRes, applyRes_argsRes, hvals]
+      exact ⟨trivial, (data_callStrict hB (k := .func f this) hk hdvals)⟩
+    | ctor tn =>
+      simp only [callOf, callRes, applyRes_argsRes, hvals]
+      exact ⟨trivial, (data_callStrict hB (k := .ctor tn) trivial hdvals)⟩
+    | none => exact ⟨rfl, rfl⟩
+  have hst := hstep _ _ _ hp hev hres.1
+  have := runs_call hrunsE (bvs.map (fun p => Val.code p.1)) hres.2.plain hst
+  have hcode : (bvs.map (fun p => Val.code p.1)).reverse.map Instr.push = compileArgs B args := by
+    simp [bvs, compileArgs_eq, List.map_reverse, List.map_map, Function.comp_def]
+  have hlen : (bvs.map (fun p => Val.code p.1)).length = args.length := by simp [bvs]
+  rw [hcode, hlen] at this
+  exact ⟨this, hres.2⟩
+
+/-- `check_for_const` around code that runs to `valf env`: the folded constant is that value. -/
+theorem cgood_checkForConst {d : Nat} {ids : List Str} {code : List Instr} {valf : Env → Val}
+    (hU : ∀ b env, StdEnv B env → d ≤ b → b < maxDepth →
+      Runs B (runAt B b) (runFresh B) env code (valf env) ∧ Data (valf env))
+    (hirr : Irr B ids valf) :
+    CGood B d (checkForConst B ids code) valf := by
+  intro b env henv hd hb
+  obtain ⟨hr, hdat⟩ := hU b env henv hd hb
+  unfold checkForConst
+  simp only
+  split
+  · exact ⟨hr, fun c hc => (by cases hc), hdat⟩
+  · rename_i hcl
+    have hclosed : Closed B ids := by simpa [Closed] using hcl
+    split
+    · rename_i v hv
+      have h31 := (hU 31 compileEnv compileEnv_std (by unfold maxDepth at hb; omega) (by decide)).1
+      have hrun : runAt B maxDepth compileEnv code true [] = outOf (valf compileEnv) [] :=
+        runAt_of_runs (compileEnv_std (B := B)).noProgs 31 h31 []
+      rw [hrun] at hv
+      obtain ⟨h1, _⟩ := outOf_res_ok hv
+      have hveq : v = valf env := by rw [← h1]; exact hirr _ _ (agree_of_closed hclosed henv)
+      subst hveq
+      exact ⟨runs_push hdat.plain, fun c hc => (by cases hc; rfl), hdat⟩
+    · exact ⟨hr, fun c hc => (by cases hc), hdat⟩
+
+theorem fnKind_macro {env : Env} {f : Str} {this : Val} (h : fnKind B env f = .macro_ this) :
+    env.isMacro f = true := by
+  unfold fnKind at h
+  cases hf : B.func f with
+  | some g => simp only [hf] at h; cases h
+  | none =>
+    simp only [hf] at h
+    cases hm : env.isMacro f with
+    | true => rfl
+    | false => simp only [hm, Bool.false_eq_true, if_false] at h; split at h <;> cases h
+
+theorem methodKind_macro {env : Env} {o : Val} {name : Str} {this : Val}
+    (h : methodKind B env o name = .macro_ this) : env.isMacro name = true := by
+  unfold methodKind at h
+  cases hfe : fieldEntry o name with
+  | some v => simp only [hfe] at h; cases v <;> cases h
+  | none =>
+    simp only [hfe] at h
+    cases hf : B.func name with
+    | some g => simp only [hf] at h; cases h
+    | none =>
+      simp only [hf] at h
+      cases hm : env.isMacro name with
+      | true => rfl
+      | false => simp only [hm, Bool.false_eq_true, if_false] at h; cases h
+
+/-- `f`: the unresolved name as callee. -/
+theorem calleeGood_ident (f : Str) : CalleeGood B 0 [.push (.ident f)] f (fun env => fnKind B env f) := by
+  intro b env henv _ _
+  refine ⟨kindOK_fnKind f, ?_, .val (.ident f), ⟨1, by simp, go_push _ []⟩, ?_⟩
+  · intro this h; exact fnKind_macro h
+  · intro argv res r hp hev hr
+    exact callStep_ident henv.toEnvOK f hp hev hr
+
+/-- The code of `cur.name` as the compiler emits it before a call (member access on a constant map is folded). -/
+def accessCP (cur : CP) (name : Str) : CP :=
+  match cur with
+  | .const o =>
+    (match foldAccess o name with
+     | some v => .const v
+     | none => .code [.push o, .push (.ident name), .access])
+  | .code c => .code (c ++ [.push (.ident name), .access])
+
+theorem foldAccess_some {o : Val} {name : Str} {v : Val} (h : foldAccess o name = some v) :
+    fieldEntry o name = some v ∧ fieldOf o name = v := by
+  unfold foldAccess at h
+  split at h
+  · rename_i m
+    simp only [accessVal] at h
+    cases hg : Map.get m name with
+    | none => simp [hg] at h
+    | some w =>
+      simp only [hg] at h
+      have : w = v := by
+        split at h
+        · cases h
+        · cases h; rfl
+      subst this
+      simp [fieldEntry, fieldOf, hg]
+  · cases h
+
+/-- `o.name` as callee. -/
+theorem calleeGood_method {d : Nat} {cur : CP} {valf : Env → Val} (hcur : CGood B d cur valf) (name : Str) :
+    CalleeGood B d (accessCP cur name).toCode name (fun env => methodKind B env (valf env) name) := by
+  intro b env henv hd hb
+  obtain ⟨hr, hc, hdat⟩ := hcur b env henv hd hb
+  refine ⟨kindOK_methodKind hdat name, ?_, accessEntry B env (valf env) name, ?_, ?_⟩
+  · intro this h; exact methodKind_macro h
+  · unfold accessCP
+    split
+    · rename_i o
+      have ho := hc o rfl
+      split
+      · rename_i v hv
+        obtain ⟨h1, _⟩ := foldAccess_some hv
+        rw [← ho]
+        simp only [accessEntry, h1, CP.toCode]
+        exact ⟨1, by simp, go_push _ []⟩
+      · exact runsE_access henv.noProgs henv.binds hr name
+    · exact runsE_access henv.noProgs henv.binds hr name
+  · intro argv res r hp hev hres
+    exact callStep_access henv.toEnvOK hdat name hp hev hres
+
+/-! ### the postfix chain -/
+
+/-- `cur[e]` as the compiler emits it. -/
+def indexCP (c1 c2 : CP) : CP :=
+  match c1, c2 with
+  | .const o, .const i => .const (index o i)
+  | c1, c2 => .code (c1.toCode ++ c2.toCode ++ [.index])
+
+theorem co_nil (ids : List Str) (cur : CP) : compileOps B ids cur [] = cur := by
+  simp [compileOps]
+
+theorem co_access (ids : List Str) (cur : CP) (sp i : Span) (name : Str) (rest : List MOp) :
+    compileOps B ids cur (.access sp i name :: rest) = compileOps B ids (accessCP cur name) rest := by
+  cases cur <;> rw [compileOps] <;> rfl
+
+theorem co_call (ids : List Str) (cur : CP) (sp : Span) (args : List Ast) (rest : List MOp) :
+    compileOps B ids cur (.call sp args :: rest) =
+      compileOps B (ids ++ identsOfList args)
+        (checkForConst B (ids ++ identsOfList args) (compileArgs B args ++ cur.toCode ++ [.call args.length])) rest := by
+  rw [compileOps]
+
+theorem co_index (ids : List Str) (cur : CP) (sp : Span) (e : Ast) (rest : List MOp) :
+    compileOps B ids cur (.index sp e :: rest) =
+      compileOps B (ids ++ identsOf e) (indexCP cur (compileX B e).cp) rest := by
+  cases cur with
+  | code c =>
+    rw [compileOps.eq_6]
+    · rfl
+    · intro a b h; cases h
+  | const a =>
+    cases h : (compileX B e).cp with
+    | const b => rw [compileOps.eq_5 _ _ _ _ _ _ _ h]; rfl
+    | code c =>
+      rw [compileOps.eq_6]
+      · rw [h]; rfl
+      · intro a b _ h'; rw [h] at h'; cases h'
+
+theorem cgood_access_field {d : Nat} {cur : CP} {valf : Env → Val} (hcur : CGood B d cur valf) {name : Str}
+    (hn : callableName B name = false) :
+    CGood B d (accessCP cur name) (fun env => fieldOf (valf env) name) := by
+  intro b env henv hd hb
+  obtain ⟨hr, hc, hdat⟩ := hcur b env henv hd hb
+  refine ⟨?_, ?_, data_fieldOf hdat name⟩ <;> dsimp only
+  · unfold accessCP
+    split
+    · rename_i o
+      have ho := hc o rfl
+      split
+      · rename_i v hv
+        rw [← ho, (foldAccess_some hv).2]
+        have : Data v := by rw [← (foldAccess_some hv).2, ho]; exact data_fieldOf hdat name
+        exact runs_push this.plain
+      · exact runs_access_field henv.toEnvOK hdat hr hn
+    · exact runs_access_field henv.toEnvOK hdat hr hn
+  · intro c hcc
+    unfold accessCP at hcc
+    split at hcc
+    · rename_i o
+      have ho := hc o rfl
+      split at hcc
+      · rename_i v hv
+        cases hcc
+        rw [← ho, (foldAccess_some hv).2]
+      · cases hcc
+    · cases hcc
+
+theorem cgood_index {d1 d2 : Nat} {c1 c2 : CP} {v1 v2 : Env → Val} (h1 : CGood B d1 c1 v1) (h2 : CGood B d2 c2 v2) :
+    CGood B (max d1 d2) (indexCP c1 c2) (fun env => index (v1 env) (v2 env)) := by
+  intro b env henv hd hb
+  obtain ⟨hr1, hc1, hdat1⟩ := h1 b env henv (by omega) hb
+  obtain ⟨hr2, hc2, _⟩ := h2 b env henv (by omega) hb
+  refine ⟨?_, ?_, data_index hdat1⟩ <;> dsimp only
+  · unfold indexCP
+    split
+    · rename_i o i
+      rw [← hc1 o rfl, ← hc2 i rfl]
+      have : Data (index o i) := by rw [hc1 o rfl]; exact data_index hdat1
+      exact runs_push this.plain
+    · exact runs_index henv.noProgs hdat1 hr1 hr2
+  · intro c hcc
+    unfold indexCP at hcc
+    split at hcc
+    · rename_i o i
+      cases hcc
+      rw [← hc1 o rfl, ← hc2 i rfl]
+    · cases hcc
+
+theorem evalSpecList_irr {ids : List Str} {args : List Ast} (hargs : ∀ a ∈ args, Irr B (identsOf a) (evalSpec B a))
+    (hsub : ∀ n ∈ identsOfList args, n ∈ ids) {e1 e2 : Env} (h : AgreeOn B ids e1 e2) :
+    evalSpecList B args e1 = evalSpecList B args e2 := by
+  induction args with
+  | nil => simp [evalSpecList]
+  | cons a as ih =>
+    simp only [evalSpecList]
+    rw [identsOfList] at hsub
+    rw [hargs a (List.mem_cons_self ..) e1 e2 (h.mono (fun n hn => hsub n (List.mem_append_left _ hn))),
+      ih (fun x hx => hargs x (List.mem_cons_of_mem _ hx)) (fun n hn => hsub n (List.mem_append_right _ hn))]
+
+/-- Macro bodies do not distinguish agreeing environments either (the loop variable is bound in both). -/
+theorem evalSpecMacro_irr {ids : List Str} {args : List Ast} (hargs : ∀ a ∈ args, Irr B (identsOf a) (evalSpec B a))
+    (hsub : ∀ n ∈ identsOfList args, n ∈ ids) {e1 e2 : Env} (h : AgreeOn B ids e1 e2) (name : Str) (this : Val) :
+    evalSpecMacro B name this args e1 = evalSpecMacro B name this args e2 := by
+  sorry
+
+theorem macro_ok (hB : BuiltinsOK B) (name : Str) (args : List Ast) (hargs : ∀ a ∈ args, GoodRun B a)
+    (hshape : macroShape B name args = true) : MacroOK B name args := by
+  sorry
+
+theorem callVal_irr {ids ids' : List Str} {kindf : Env → CallKind} {name : Str} {args : List Ast}
+    (hk : ∀ e1 e2, AgreeOn B ids' e1 e2 → kindf e1 = kindf e2)
+    (hargs : ∀ a ∈ args, Irr B (identsOf a) (evalSpec B a)) (hsub : ∀ n ∈ identsOfList args, n ∈ ids')
+    (hids : ∀ n ∈ ids, n ∈ ids') : Irr B ids' (callVal B kindf name args) := by
+  intro e1 e2 h
+  unfold callVal
+  rw [hk e1 e2 h, evalSpecList_irr hargs hsub h]
+  congr 1
+  funext this
+  exact evalSpecMacro_irr hargs hsub h name this
+
+theorem identsOfOps_access (sp i : Span) (name : Str) (rest : List MOp) :
+    identsOfOps (.access sp i name :: rest) = identsOfOps rest := by rw [identsOfOps]
+theorem identsOfOps_call (sp : Span) (args : List Ast) (rest : List MOp) :
+    identsOfOps (.call sp args :: rest) = identsOfList args ++ identsOfOps rest := by rw [identsOfOps]
+theorem identsOfOps_index (sp : Span) (e : Ast) (rest : List MOp) :
+    identsOfOps (.index sp e :: rest) = identsOf e ++ identsOfOps rest := by rw [identsOfOps]
+
+/-- A good argument: it runs, and it does not distinguish agreeing environments. -/
+def Good (B : Builtins) (e : Ast) : Prop := GoodRun B e ∧ Irr B (identsOf e) (evalSpec B e)
+
+/-- The chain behind a current value: every prefix keeps the invariant. -/
+theorem ops_good (hB : BuiltinsOK B) (chain : List MOp) :
+    opsShape B chain = true →
+    (∀ sp' args, MOp.call sp' args ∈ chain → ∀ a ∈ args, Good B a) →
+    (∀ sp' e, MOp.index sp' e ∈ chain → Good B e) →
+    ∀ (ids : List Str) (cur : CP) (valf : Env → Val) (d : Nat), CGood B d cur valf → Irr B ids valf →
+      CGood B (max d (depthOps chain)) (compileOps B ids cur chain) (fun env => evalSpecOps B (valf env) chain env) ∧
+      Irr B (ids ++ identsOfOps chain) (fun env => evalSpecOps B (valf env) chain env) := by
+  refine opsShape.induct (motive := fun chain => opsShape B chain = true →
+    (∀ sp' args, MOp.call sp' args ∈ chain → ∀ a ∈ args, Good B a) →
+    (∀ sp' e, MOp.index sp' e ∈ chain → Good B e) →
+    ∀ (ids : List Str) (cur : CP) (valf : Env → Val) (d : Nat), CGood B d cur valf → Irr B ids valf →
+      CGood B (max d (depthOps chain)) (compileOps B ids cur chain) (fun env => evalSpecOps B (valf env) chain env) ∧
+      Irr B (ids ++ identsOfOps chain) (fun env => evalSpecOps B (valf env) chain env)) ?_ ?_ ?_ ?_ ?_ chain
+  · -- []
+    intro _ _ _ ids cur valf d hcur hirr
+    rw [co_nil, depthOps, identsOfOps, List.append_nil]
+    simp only [eso_nil]
+    exact ⟨hcur.mono (by omega), hirr⟩
+  · -- .access name :: .call args :: rest
+    intro sp i name sp' args rest ih hshape hargs hidx ids cur valf d hcur hirr
+    rw [opsShape] at hshape
+    simp only [Bool.and_eq_true] at hshape
+    obtain ⟨⟨hms, hmok⟩, hrest⟩ := hshape
+    have hargs' : ∀ a ∈ args, Good B a := hargs sp' args (by simp)
+    have hcal := calleeGood_method hcur name
+    have hU := call_runs hB hcal args (fun a ha => (hargs' a ha).1) (macro_ok hB name args (fun a ha => (hargs' a ha).1) hms)
+    have hirr' : Irr B (ids ++ identsOfList args) (callVal B (fun env => methodKind B env (valf env) name) name args) := by
+      apply callVal_irr (ids := ids)
+      · intro e1 e2 h
+        rw [hirr e1 e2 h.left, h.meth _ name hmok]
+      · exact fun a ha => (hargs' a ha).2
+      · exact fun n hn => List.mem_append_right _ hn
+      · exact fun n hn => List.mem_append_left _ hn
+    have hcg := cgood_checkForConst hU hirr'
+    have := ih hrest (fun sp'' a' h => hargs sp'' a' (by simp [h])) (fun sp'' e h => hidx sp'' e (by simp [h]))
+      (ids ++ identsOfList args) _ _ _ hcg hirr'
+    simp only [co_access, co_call, eso_method, identsOfOps_access, identsOfOps_call, ← List.append_assoc]
+    refine ⟨this.1.mono ?_, this.2⟩
+    rw [depthOps, depthOps]; omega
+  · -- .access name :: rest (a field)
+    intro sp i name rest hnc ih hshape hargs hidx ids cur valf d hcur hirr
+    rw [opsShape] at hshape
+    · simp only [Bool.and_eq_true, Bool.not_eq_true'] at hshape
+      obtain ⟨hn, hrest⟩ := hshape
+      have hcg := cgood_access_field hcur hn
+      have hirr' : Irr B ids (fun env => fieldOf (valf env) name) := by
+        intro e1 e2 h; dsimp only; rw [hirr e1 e2 h]
+      have := ih hrest (fun sp'' a' h => hargs sp'' a' (by simp [h])) (fun sp'' e h => hidx sp'' e (by simp [h]))
+        ids _ _ _ hcg hirr'
+      simp only [co_access, identsOfOps_access]
+      have hes : (fun env => evalSpecOps B (valf env) (.access sp i name :: rest) env) =
+          (fun env => evalSpecOps B (fieldOf (valf env) name) rest env) := by
+        funext env; exact eso_field _ _ _ _ _ _ hnc
+      rw [hes]
+      refine ⟨this.1.mono ?_, this.2⟩
+      rw [depthOps]; omega
+    · exact hnc
+  · -- .index e :: rest
+    intro sp e rest ih hshape hargs hidx ids cur valf d hcur hirr
+    rw [opsShape] at hshape
+    have he : Good B e := hidx sp e (by simp)
+    have hcg := cgood_index hcur he.1.cgood
+    have hirr' : Irr B (ids ++ identsOf e) (fun env => index (valf env) (evalSpec B e env)) := by
+      intro e1 e2 h; dsimp only; rw [hirr e1 e2 h.left, he.2 e1 e2 h.right]
+    have := ih hshape (fun sp'' a' h => hargs sp'' a' (by simp [h])) (fun sp'' e h => hidx sp'' e (by simp [h]))
+      (ids ++ identsOf e) _ _ _ hcg hirr'
+    simp only [co_index, eso_index, identsOfOps_index, ← List.append_assoc]
+    refine ⟨this.1.mono ?_, this.2⟩
+    rw [depthOps]; omega
+  · -- .call first: not in the fragment
+    intro sp args tl hshape
+    rw [opsShape] at hshape
+    cases hshape
+
+end
+
 end C05Compile2
 end Rscel
